@@ -460,6 +460,7 @@ structure MState where
   st : PState := .cmd0 .free
   implErr : Bool := false
   subs : Nat := 0             -- number of substitutions performed (observation only)
+  toks : List Kind := []      -- tokens consumed, most recent first (observation only)
   deriving Repr
 
 /-- One `require_token` + `take_token_*`: skip blanks/comment, lex a token, substitute or consume. -/
@@ -475,10 +476,10 @@ def step (T : Table) (s : MState) : Option MState :=
     match eligible T before c0 tok.kind d.sub with
     | some a =>
       some { pre := before, rest := spliceChars a c0 ++ tl.drop n, st := d.onSub,
-             implErr := s.implErr, subs := s.subs + 1 }
+             implErr := s.implErr, subs := s.subs + 1, toks := s.toks }
     | none =>
       some { pre := (tl.take n).reverse ++ c0 :: before, rest := tl.drop n, st := d.onTake,
-             implErr := s.implErr || d.implErr, subs := s.subs }
+             implErr := s.implErr || d.implErr, subs := s.subs, toks := tok.kind :: s.toks }
 
 /-- Runs `step` until the end of input; the flag is `true` iff the end was reached within the fuel. -/
 def run (T : Table) : Nat → MState → MState × Bool
